@@ -57,6 +57,9 @@ enum Path {
     DeserialisedFull,
     /// `-(x)` where x was built by Single with the negated amount (keeps a zero entry)
     NegOfSingle(usize),
+    /// deserialised map holding the non-zero entries plus an explicit zero entry for the zero classes in the
+    /// mask (a proper, non-empty subset of them): values of one meaning padded on different classes
+    DeserialisedPadded(u8),
 }
 
 #[derive(Clone, Debug)]
@@ -97,6 +100,10 @@ fn build(rep: &Rep) -> CanonicalAssets {
             let m: HashMap<_, _> = (0..3).map(|i| (cl[i].clone(), rep.amounts[i])).collect();
             deserialise(&m)
         }
+        Path::DeserialisedPadded(mask) => {
+            let m: HashMap<_, _> = (0..3).filter(|i| rep.amounts[*i] != 0 || mask & (1 << i) != 0).map(|i| (cl[i].clone(), rep.amounts[i])).collect();
+            deserialise(&m)
+        }
     }
 }
 
@@ -109,6 +116,14 @@ fn reps(lo: i128, hi: i128) -> Vec<Rep> {
                 let amounts = [a, b, c];
                 out.push(Rep { amounts, path: Path::SumOfSingles });
                 out.push(Rep { amounts, path: Path::DeserialisedFull });
+                let zero_mask: u8 = (0..3).filter(|i| amounts[*i] == 0).map(|i| 1u8 << i).sum();
+                for mask in 0..8u8 {
+                    // subsets of the zero classes other than all of them (= DeserialisedFull); the empty subset is
+                    // the deserialised value without any zero entry
+                    if mask & !zero_mask == 0 && mask != zero_mask {
+                        out.push(Rep { amounts, path: Path::DeserialisedPadded(mask) });
+                    }
+                }
                 let nz: Vec<usize> = (0..3).filter(|i| amounts[*i] != 0).collect();
                 if nz.is_empty() {
                     for i in 0..3 {
@@ -131,6 +146,7 @@ fn path_tag(p: Path) -> &'static str {
         Path::Single(_) => "single",
         Path::DeserialisedFull => "deser",
         Path::NegOfSingle(_) => "neg-single",
+        Path::DeserialisedPadded(_) => "deser-padded",
     }
 }
 
@@ -290,6 +306,9 @@ impl C15 {
         // equality is semantic
         let code_eq = a == b;
         let sem_eq = sa == sb;
+        if sem_eq && !sa.is_empty() && a.len() == b.len() && has_zero_entry(a) && a.keys().any(|k| !b.contains_key(k)) {
+            ctx.count("feature/equal-values-padded-on-different-classes");
+        }
         if code_eq != sem_eq {
             ctx.violation(format!("law:eq-semantic:{zk}"), detail("(a == b) <=> same non-zero entries", a, b, json!({"code_eq": code_eq, "semantic_eq": sem_eq})));
         }
@@ -633,7 +652,7 @@ impl Property for C15 {
     }
 
     fn rule(&self) -> String {
-        "pairs/triples: every pair (triple) of representations of values over 3 asset classes (lovelace, two tokens) with amounts in the phase's range, where a representation = amounts x construction path (sum of singles, single constructor incl. amount 0, negation of a single, deserialised map with explicit zero entries); random: 0..3 summands over a pool of classes with policies/names of length 0..40 (Naked, Named, Defined), amounts across the i128 range kept below 2^125 so that no sum overflows; extremes: operands built without arithmetic (deserialised maps) over 4 classes with amounts on and next to i128::MIN / i128::MAX / half-range, in correlated pairs so that exact sums and differences land on the range ends, left operand smaller or larger than the right, in the release and the overflow-checking profile - every plain, checked and reducer operation whose exact result is representable must produce it and a checked one says None exactly otherwise; lists: asset-expression lists of 0..4 entries with one class in several spellings (absent / empty Bytes / empty Hash / empty String parts, Bytes vs Hash vs String), repeated classes and zero amounts, converted as a whole, entry by entry, against an independent reading, and through the reducer's Add/Sub/Negate. A case is non-trivial when both operands are semantically non-empty or one carries an explicit zero entry; distinct = distinct (a, b[, c]) entry lists incl. zero entries.".into()
+        "pairs/triples: every pair (triple) of representations of values over 3 asset classes (lovelace, two tokens) with amounts in the phase's range, where a representation = amounts x construction path (sum of singles, single constructor incl. amount 0, negation of a single, deserialised map with explicit zero entries for all, some or none of the zero classes); random: 0..3 summands over a pool of classes with policies/names of length 0..40 (Naked, Named, Defined), amounts across the i128 range kept below 2^125 so that no sum overflows; extremes: operands built without arithmetic (deserialised maps) over 4 classes with amounts on and next to i128::MIN / i128::MAX / half-range, in correlated pairs so that exact sums and differences land on the range ends, left operand smaller or larger than the right, in the release and the overflow-checking profile - every plain, checked and reducer operation whose exact result is representable must produce it and a checked one says None exactly otherwise; lists: asset-expression lists of 0..4 entries with one class in several spellings (absent / empty Bytes / empty Hash / empty String parts, Bytes vs Hash vs String), repeated classes and zero amounts, converted as a whole, entry by entry, against an independent reading, and through the reducer's Add/Sub/Negate. A case is non-trivial when both operands are semantically non-empty or one carries an explicit zero entry; distinct = distinct (a, b[, c]) entry lists incl. zero entries.".into()
     }
 
     fn assumptions(&self) -> Vec<String> {
@@ -682,6 +701,7 @@ impl Property for C15 {
             "feature/extreme-checked-none".into(),
             "feature/list-empty-part-spelling".into(),
             "feature/list-class-repeated".into(),
+            "feature/equal-values-padded-on-different-classes".into(),
         ]
     }
 
@@ -775,6 +795,19 @@ impl Property for C15 {
                 let b = self.random_value(rng, &pool, small);
                 let c = self.random_value(rng, &pool, small);
                 self.binary_checks(ctx, &a, &b, "random", idx % 4 == 0);
+                if idx % 3 == 1 {
+                    // one value, deserialised twice with explicit zero entries on (possibly) different classes
+                    let mut pad = |v: &CanonicalAssets| {
+                        let mut m: HashMap<AssetClass, i128> = v.iter().map(|(k, x)| (k.clone(), *x)).collect();
+                        for _ in 0..1 + rng.usize(2) {
+                            m.entry(rng.pick(&pool).clone()).or_insert(0);
+                        }
+                        deserialise(&m)
+                    };
+                    let (a1, a2) = (pad(&a), pad(&a));
+                    self.binary_checks(ctx, &a1, &a2, "random-padded", false);
+                    self.binary_checks(ctx, &a1, &a, "random-padded", false);
+                }
                 // associativity
                 let (sa, sb, sc) = (sem(&a), sem(&b), sem(&c));
                 if let Some(want) = sem_add(&sa, &sb).and_then(|x| sem_add(&x, &sc)) {
